@@ -47,6 +47,10 @@ Theorem C20_nonzerorandom_terminates : Nonzerorandom_terminates_stmt. Proof. exa
 Print Assumptions C20_nonzerorandom_terminates.
 Theorem C20_random_integer_iterator : Random_integer_iterator_stmt. Proof. exact random_integer_iterator_thm. Qed.
 Print Assumptions C20_random_integer_iterator.
+Theorem C20_random_integer_iterator_state_machine : Rii_state_machine_stmt. Proof. exact rii_state_machine_thm. Qed.
+Print Assumptions C20_random_integer_iterator_state_machine.
+Theorem C20_qfield_random_canonical : Qfield_random_stmt.         Proof. exact qfield_random_thm. Qed.
+Print Assumptions C20_qfield_random_canonical.
 Theorem C20_modular_integer_randiter : Modint_randiter_stmt.      Proof. exact modint_randiter_thm. Qed.
 Print Assumptions C20_modular_integer_randiter.
 (* --- rings, fields, polynomials on GivRandom; RecInt *)
@@ -64,6 +68,10 @@ Theorem C20_gfq_random : Gfq_random_stmt.                         Proof. exact g
 Print Assumptions C20_gfq_random.
 Theorem C20_gfq_nonzerorandom : Gfq_nonzerorandom_stmt.           Proof. exact gfq_nonzerorandom_range. Qed.
 Print Assumptions C20_gfq_nonzerorandom.
+Theorem C20_gfq_randiter : Gfq_randiter_stmt.                     Proof. exact gfq_randiter_range. Qed.
+Print Assumptions C20_gfq_randiter.
+Theorem C20_poly_random_gfq_exact_degree : Poly_random_gfq_stmt.  Proof. exact poly_random_gfq_spec. Qed.
+Print Assumptions C20_poly_random_gfq_exact_degree.
 Theorem C20_gf2_random : Gf2_random_stmt.                         Proof. exact gf2_random_range. Qed.
 Print Assumptions C20_gf2_random.
 Theorem C20_poly_random_exact_degree : Poly_random_stmt.          Proof. exact poly_random_spec. Qed.
